@@ -69,6 +69,9 @@ fixed("C17", "unlisted:to_string-not-round-tripping", "3a69894", "float::to_stri
 fixed("C11", "unlisted:tree-differs-after-round-trip", "3a69894", "the float constant 0.9999999999999999 was unparsed as 1.0", "0.9999999999999999")
 fixed("C12", "unlisted:optimizer-output-differs-from-reference-rewrite", "c23d8c7", "ConstantOptimizer folded store/del-context tuples such as `() = x` into a Constant", "() = x")
 fixed("C06", "unlisted:rust-rejects-literal", "d96bbf3", "a float literal with a decimal point written directly against `else` (`0 if y<1.5else 2`) was rejected as an invalid decimal literal: after the fraction the lexer took any `e` as the start of an exponent", "0 if y<1.5else 2")
+fixed("C01", "unlisted:rust-rejects", "3e4e00a", "a physical line holding only blanks and a line-continuation backslash, joined onto a blank or comment-only line, produced a stray Newline (and Indent/Dedent) token: rejected inside an indented block, 'unexpected indent' when it had blanks of its own at top level, and in expression mode after the expression", "if a:\n  x\n  \\\n\n  y\n")
+fixed("C08", "unlisted:acceptance-changes-with-layout", "3e4e00a", "same defect seen by C08: inserting a backslash-only line in front of a blank line made an accepted program rejected", "if a:\n  x\n  \\\n\n  y\n")
+fixed("C08", "unlisted:tree-changes-with-layout", "3e4e00a", "same defect, other face: a backslash-only line at another column than the block's, joined onto the statement's line, was measured on its own and moved the statement out of the block", "if a:\n  x\n\\\n  y\n")
 fixed("C01", "unlisted:rust-rejects", "d96bbf3", "same defect seen by C01: `x = 0 if y<5.else 2` rejected", "x = 0 if y<5.else 2")
 fixed("C18", "unlisted:string-precision", "5b84adc", "format_string truncated after padding and by bytes (wrong text; panic inside a multi-byte character)", "format('é', '1.1')")
 
